@@ -24,9 +24,10 @@ def harnesses(tier, seed):
     if tier == "quick":
         for ty, term in (("MF", "reduce_xor"), ("FMF", "reduce_add"), ("FLF", "reduce_xor")):
             for c in (1, 2):
-                hs.append(h(term, ty, "slice", 4, 2, c))
+                hs.append(h(term, ty, "slice", 3 if (ty == "FLF" and c == 2) else 4, 2, c))
         # more chunks than workers x chunk size: a worker that stops pulling early loses the tail
         hs.append(h("reduce_add", "FMF", "slice", 5, 2, 2))
+        hs.append(h("reduce_xor", "FMF", "slice", 5, 2, 1))
         hs.append(h("reduce_xor", "MF", "slice", 5, 2, 2))
         hs.append(h("reduce_xor", "MF", "sched", 4, 2, 1))   # iterator-backed sources under the schedule model
         hs.append(h("reduce_add", "FMF", "sched", 4, 2, 2))
